@@ -16,7 +16,7 @@ IDX_FAR = [4095, 4096, 4097, 65535, 65536, 2**31 - 1, 2**32 - 2]
 LENS = [0, 1, 2, 3, 5, 8, 13, 20, 21, 4096, 4097, 65536, 2**31, 2**32 - 2, 2**32 - 1]
 CMP_FIELDS = ("r", "len", "lw", "ext", "keys")
 NEGZERO_SIG = "sort-comparator-negzero-treated-as-less"
-MQUICK = 1500
+MQUICK = 1000
 
 
 # ----------------------------------------------------------------------------- generators
@@ -501,6 +501,7 @@ def gen_method_cases(rng, budget):
 
 
 def check_methods(ctx, env, cases):
+    env.method_bad = 0
     lines = ["meth " + json.dumps(c, separators=(",", ":")) for c in cases]
     outs = run_sharded(ctx, env.harness, lines)
     for c, line, o in zip(cases, lines, outs):
@@ -513,7 +514,8 @@ def check_methods(ctx, env, cases):
             sig = "method-crash:%s:%s" % (c["kind"], c["meth"])
             if "valueOf" in c["args"] and "setLen(" in c["args"] and c["kind"] in ("dense", "nonext") and c["meth"] in ("lastIndexOf", "fill", "copyWithin", "includes", "indexOf", "toSpliced", "splice", "slice"):
                 sig = "fastpath-stale-length-after-valueOf:" + c["meth"]
-            ctx.violation(sig, "method call crashed the host: %s(%s) on %s: %s" % (c["meth"], c["args"][:60], json.dumps(c["spec"]), (o or "")[:160]), rep)
+            if ctx.violation(sig, "method call crashed the host: %s(%s) on %s: %s" % (c["meth"], c["args"][:60], json.dumps(c["spec"]), (o or "")[:160]), rep) != "known":
+                env.method_bad += 1
             continue
         subj, ref, twin = (o.split(" @@ ") + ["-", "-"])[:3]
         if c["kind"] == "goslice":
@@ -539,7 +541,8 @@ def check_methods(ctx, env, cases):
                 sig = "fastpath-stale-length-after-valueOf:" + c["meth"]
             elif c["kind"] in ("frozen", "nonext") and c["meth"] == "splice":
                 sig = "splice-fastpath-adds-elements-to-nonextensible-array"
-            ctx.violation(sig, "%s receiver, %s(%s) [%s]: %s  expected  %s" % (c["kind"], c["meth"], c["args"][:60], bad[0], subj[:160], bad[1][:160]), rep)
+            if ctx.violation(sig, "%s receiver, %s(%s) [%s]: %s  expected  %s" % (c["kind"], c["meth"], c["args"][:60], bad[0], subj[:160], bad[1][:160]), rep) != "known":
+                env.method_bad += 1
     return len(cases)
 
 
@@ -579,13 +582,14 @@ def main(ctx):
     thorough = ctx.tier == "thorough"
 
     ctx.regen()
-    ok, errs = ctx.lake_build(["GojaModel.C07.Props", "GojaModel.C07.PropsElem", "GojaModel.C07.Tie", "model_c07"])
+    ok, errs = ctx.lake_build(["GojaModel.C07.Props", "GojaModel.C07.PropsElem", "GojaModel.C07.PropsHist", "GojaModel.C07.Tie", "model_c07"])
     if ok:
         ctx.audit("GojaModel.C07.Props", expect_min=22)
-        ctx.audit("GojaModel.C07.PropsElem", expect_min=14)
+        ctx.audit("GojaModel.C07.PropsElem", expect_min=13)
+        ctx.audit("GojaModel.C07.PropsHist", expect_min=4)
         ctx.audit("GojaModel.C07.Tie", expect_min=1)
         if thorough:
-            ctx.leanchecker("GojaModel.C07.PropsElem")
+            ctx.leanchecker("GojaModel.C07.PropsHist")
     env.model = ctx.model_exe() if ok and os.path.exists(ctx.model_exe()) else None
     env.harness = ctx.go_build()
     if env.harness is None:
@@ -605,11 +609,13 @@ def main(ctx):
             check_sort(ctx, env, [e["case"]])
         elif e.get("type") == "meth":
             corpus_meth.append(e["case"])
-    nseq = 2500 if thorough else 300
+    nseq = 2500 if thorough else 150
     for k in range(nseq):
         ops = gen_seq(rng, allow_fill=(k % 4 == 0))
         seqs.append(("g%d" % k, twins(rng, ops)))
+    ctx.log("lean+go built; running %d sequences (x up to 5 variants)" % len(seqs))
     problems = check_seqs(ctx, env, seqs, "seq")
+    ctx.log("sequences done")
     kinds = {}
     for p in problems:
         kinds[p["kind"]] = kinds.get(p["kind"], 0) + 1
@@ -629,9 +635,11 @@ def main(ctx):
             continue
         seen.add(key)
         report_seq_problem(ctx, env, p)
+    ctx.obligation("spec:[[Delete]]-calls-no-user-code", "correspondence", not env.ts_hits, json.dumps(list(env.ts_hits.values())[:1])[:300])
     for sig, line in env.ts_hits.items():
         ctx.violation(sig, "a failed delete of a non-configurable element called the user-visible Array.prototype.toString: " + line[:200],
                       {"kind": "history", "line": line, "expected": "ts=0 ([[Delete]] calls no user code)"})
+    ctx.obligation("spec:element-define=ValidateAndApplyPropertyDescriptor", "correspondence", not env.quirks, json.dumps(list(env.quirks.keys())))
     for q, line in env.quirks.items():
         ctx.violation("define-quirk-" + q, "element defineProperty deviates from ValidateAndApplyPropertyDescriptor (%s): %s" % (q, line[:200]),
                       {"kind": "history", "line": line, "note": "implementation = mechanism model, both differ from the spec (object.go _defineOwnProperty)"})
@@ -639,17 +647,17 @@ def main(ctx):
         ctx.sample(seq_line(s[1]["orig"])[:300])
 
     # 2. sort
-    sort_cases = gen_sort_cases(rng, 4000 if thorough else 700)
+    sort_cases = gen_sort_cases(rng, 4000 if thorough else 400)
     sort_cases.insert(0, {"recv": "dense", "method": "sort", "cmp": "desc-negate", "elems": [[1, 0], [1, 1], [1, 2], [0, 3]], "mutate": "", "seed": 0})
     sagree = check_sort(ctx, env, sort_cases)
+    ctx.log("sort sweep done")
     ctx.obligation("oracle:sort-stable-permutation", "correspondence", sagree, "")
 
     # 3. methods
     mcases, exhaustive = gen_method_cases(rng, 100000 if thorough else MQUICK)
     nm = check_methods(ctx, env, corpus_meth + mcases)
     ctx.stats["method_sweep"] = {"cases": nm, "exhaustive_over_listed_domain": exhaustive}
-    ctx.obligation("oracle:methods-fastpath=generic(metamorphic)", "correspondence",
-                   not any(v["signature"].startswith(("method-", "frozen-")) for v in ctx.violations), "")
+    ctx.obligation("oracle:methods-fastpath=generic(metamorphic)", "correspondence", env.method_bad == 0, "%d cases differ" % env.method_bad)
 
     ctx.stats["std_fastpath_final"] = env.stats["std_fastpath_final"]
     ctx.stats["inconclusive_timeouts"] = {"count": len(INCONCLUSIVE), "lines": INCONCLUSIVE[:5]}
